@@ -161,8 +161,8 @@ func oracleCase(t *testing.T, lines [][]string) string {
 			synctest.Wait()
 		}()
 		head := lines[0]
-		if len(head) < 4 {
-			return
+		if len(head) < 4 || strings.HasPrefix(head[2], "join") {
+			return // the join streams are checked by the Lean side only
 		}
 		tr, ok := parseTransform(head[3])
 		if !ok {
